@@ -130,7 +130,9 @@ def match_schemas(w_schema, r_schema, named_schemas):
             w_unqual_name = w_schema["name"].split(".")[-1]
             r_unqual_name = r_schema["name"].split(".")[-1]
             r_aliases = r_schema.get("aliases", [])
-            if (
+            # An enum never matches a record or a fixed of the same name
+            same_kind = w_type == r_type or {w_type, r_type} <= {"record", "error"}
+            if same_kind and (
                 w_unqual_name == r_unqual_name
                 or w_schema["name"] in r_aliases
                 or w_unqual_name in r_aliases
